@@ -278,12 +278,24 @@ func solve(script string, timeoutMs int, wantAgreement bool) SolverResult {
 	firstRaw := r
 	ctx, cancel := context.WithCancel(context.Background())
 	defer cancel()
-	ch := make(chan SolverResult, len(solvers)+1)
+	ch := make(chan SolverResult, len(solvers)+3)
 	for _, sp := range solvers {
 		sp := sp
 		go func() { ch <- runSolver(ctx, sp, script, timeoutMs) }()
 	}
 	racers := len(solvers)
+	// two more z3-new racers with other random seeds: nonlinear goals vary by an order of magnitude between seeds
+	// (0.2 s .. 6 s measured on one C14 obligation), and a loaded machine multiplies that; the first definitive answer wins
+	for _, seed := range []int{7, 13} {
+		seed := seed
+		racers++
+		go func() {
+			sp := solverSpec{fmt.Sprintf("z3-new/seed%d", seed), func(t int) []string {
+				return []string{"z3-new", "-in", fmt.Sprintf("-t:%d", t), fmt.Sprintf("smt.random_seed=%d", seed), fmt.Sprintf("sat.random_seed=%d", seed)}
+			}}
+			ch <- runSolver(ctx, sp, script, timeoutMs)
+		}()
+	}
 	// a fourth racer without the quantified string axioms: `unsat` from fewer assumptions is `unsat`; `sat` is a
 	// counter-model up to the theory of strings (the quantifiers otherwise turn every `sat` into `unknown`)
 	if stripped := dropStrAxioms(script); stripped != script {
